@@ -268,6 +268,59 @@ pub fn run(cfg: &Cfg) -> Report {
     });
     report.absorb(ctx);
 
+    // cone-free covers of corpus symbols: subgroups generated by 2-3 random words (screw motions, glide reflections and
+    // translations) that happen to have finite index and no torsion - tilings of closed flat manifolds, most of them
+    // not 3-tori. Built by the harness alone (its textbook presentation, its Todd-Coxeter, its own cover
+    // construction), 24-144 chambers; a finite cover of a euclidean symbol is euclidean, so a pseudo-toroidal cover
+    // must be found and must pass the certificate.
+    {
+        let corpus = gen::corpus();
+        let attempts = cfg.tier.pick(4_000, 60_000);
+        let ctx = crate::monitor::par_range(cfg, corpus.len() * attempts, |ctx, k| {
+            let m = &corpus[k % corpus.len()];
+            if m.n > 6 {
+                return;
+            }
+            let mut rng = Rng::stream(seed, 0x15_c000_0000 + k as u64);
+            let tb = crate::oracle::pi1::textbook_pi1(m);
+            let ng = tb.pres.ngens as i64;
+            if ng == 0 {
+                return;
+            }
+            let nw = 2 + rng.below(2);
+            let words: Vec<Vec<i64>> = (0..nw)
+                .map(|_| {
+                    let len = 2 + rng.below(8);
+                    crate::oracle::groups::reduce(&(0..len).map(|_| { let g = rng.range(1, ng); if rng.chance(1, 2) { g } else { -g } }).collect::<Vec<i64>>())
+                })
+                .filter(|w| !w.is_empty())
+                .collect();
+            if words.len() < 2 {
+                return;
+            }
+            let max_rows = 144 / m.n;
+            let t = match crate::oracle::groups::todd_coxeter(&tb.pres, &words, 4 * max_rows) {
+                Some(t) if t.rows() >= 4 && t.rows() <= max_rows => t,
+                _ => return,
+            };
+            ctx.count("finite_index_subgroups_of_corpus_groups_from_random_words");
+            let c = super::c05::oracle_cover(m, &tb, &t);
+            if !c.is_valid_symbol() || !c.is_connected() || !three_d::unbranched(&c) {
+                return;
+            }
+            ctx.count("cone_free_covers_of_corpus_symbols");
+            let ori = if c.is_oriented() { c.clone() } else { c.double_cover_by_cocycle(&|_, _| true) };
+            if ori.is_connected() && three_d::h1(&ori).iter().filter(|x| x.is_zero()).count() != 3 {
+                ctx.count("cone_free_covers_whose_orientation_cover_is_not_a_torus");
+            }
+            let f = judge_3d_one(ctx, &c, &format!("cone-free {}-sheeted cover of corpus symbol {} (subgroup generated by {:?})", t.rows(), gen::EUCLIDEAN_CORPUS[k % corpus.len()], words), true);
+            if f != Found::Failed {
+                ctx.nontrivial(digest(&("cone-free", &c)));
+            }
+        });
+        report.absorb(ctx);
+    }
+
     report.rule = "2D: every curvature-zero symbol (v in {1,2,3,4,6}) on connected sets <= 4 (thorough 6) chambers, also renumbered and dualised; 3D: every complete symbol with v in {1,2,3,4,6} and spherical tiles and vertex figures on connected sets <= 3 (thorough 4) chambers plus sampled 5-chamber ones, each with 2-3 renumberings and its dual; the known-euclidean corpus (19 literature symbols quoted by the repository) with more renumberings. Non-trivial: 2D symbol with branching or non-oriented; 3D symbol whose cover has > 1 sheet over the oriented cover. Distinct = symbol digests".into();
     report.explanation = "2D: covering map found by the model, oriented, unbranched, Euler characteristic 0 with no boundary (torus, independent of any group computation), library presentation without cones and with Smith normal form [0,0]; 3D: Some(C) => C oriented, unbranched, covers the input (model search), H1(C) = Z^3 through the harness's textbook presentation and BigInt Smith normal form, sheet number over the oriented cover in {1,2,3,4,6,8,12,24}; found/sheet number identical over all explored renumberings and the dual; Some for every corpus symbol".into();
     report.assume("known-euclidean corpus = the symbols the repository itself quotes from the literature (no network), closed under renumbering, dualisation and finite covers with <= 18 (thorough 32) chambers and 2..6 (8) sheets (a finite cover of a euclidean symbol is euclidean); 3D domain as asserted by the function (crystallographic restriction)");
@@ -276,6 +329,7 @@ pub fn run(cfg: &Cfg) -> Report {
     report.require_counter("pseudo_toroidal.none", 50);
     report.require_counter("corpus_symbols", 19);
     report.require_counter("corpus_cover_symbols_found", 50);
+    report.require_counter("cone_free_covers_whose_orientation_cover_is_not_a_torus", 20);
     report
 }
 
